@@ -218,8 +218,25 @@ imp:n,p 1 1 1 1 0
 """
 
 
+# 580b360: one particle of a shared cell-block entry followed by a comment set apart: the comment was written twice
+CORPUS_TEXT2 = """shared entry followed by a comment
+138 0 -1 vol 928.9 imp:n,p 1
+C cost $5
+171 0 1  imp:n,p=1 $ note
+     vol=2
+172 0 1 #171 imp:n,p=1 $ note
+
+1 so 1
+
+mode n p
+"""
+
+
 def gen_cases(chk):
     cases = []
+    for k in range(6):
+        cases.append({"name": f"corpus-shared-entry-comment-{k}", "limit": 128, "text": CORPUS_TEXT2, "seed": 7100 + k, "nedits": 1,
+                      "kinds": ["importance"]})
     for k in range(6):
         cases.append({"name": f"corpus-shared-imp-{k}", "limit": 128, "text": CORPUS_TEXT, "seed": 7000 + k, "nedits": 1 + k % 2,
                       "prefix": [["print_in_data_block", "imp", False]], "kinds": ["importance"]})
